@@ -1239,13 +1239,15 @@ def _prepare_import_into_project(origin, project, schema=None):
 
     """
     if os.path.isfile(origin):
-        if zipfile.is_zipfile(origin):
-            with zipfile.ZipFile(origin) as file:
-                yield _analyze_zipfile_for_import(file, project, schema)
-        elif tarfile.is_tarfile(origin):
+        # A tar archive stores its members' data verbatim, so a zip file among the
+        # data makes zipfile.is_zipfile() true for the whole archive: ask for tar first.
+        if tarfile.is_tarfile(origin):
             with TemporaryDirectory() as tmpdir:
                 with tarfile.open(origin) as file:
                     yield _analyze_tarfile_for_import(file, project, schema, tmpdir)
+        elif zipfile.is_zipfile(origin):
+            with zipfile.ZipFile(origin) as file:
+                yield _analyze_zipfile_for_import(file, project, schema)
         else:
             raise RuntimeError(f"Unknown file type: '{origin}'.")
     elif os.path.isdir(origin):
